@@ -120,14 +120,13 @@ def run(ctx):
     pebble_avoid = any(f.get("id") == "c14-pebble-checkpoint-release-timer" and f.get("status") == "open" for f in V.load_known())
     rounds = []
     nr = 3 if ctx.quick() else 42
-    mixes = ["kill,term,transfer", "kill", "kill,transfer", "term,transfer", "kill,kill,term",
-             "partition", "kill,partition", "partition,transfer"]   # partition: thorough only (i % 8 >= 5)
+    mixes = ["kill,term,transfer,partition", "kill", "kill,transfer", "term,transfer", "kill,kill,term",
+             "partition", "kill,partition", "partition,transfer"]   # quick uses the first one
     for i in range(nr):
         eng = ["mem", "pebble"][i % 2]
         a = ["-vnode", vnode, "-engine", eng, "-seed", str(ctx.seed * 1000 + i), "-mix", mixes[i % len(mixes) if not ctx.quick() else 0],
              "-epochs", "3", "-clients", str(3 + (i + ctx.seed) % 3)]
-        if not ctx.quick():
-            a += ["-reads"]      # GET / HGET / LLEN to the leader, checked as linearizable operations (thorough only so far)
+        a += ["-reads"]          # GET / HGET / LLEN to the leader, checked as linearizable operations
         if eng == "pebble" and pebble_avoid:
             a += ["-snapcount", "1000000"]     # avoid rule of c14-pebble-checkpoint-release-timer while it was open
         elif eng == "pebble" and i % 4 == 1:
@@ -209,9 +208,8 @@ def run(ctx):
     iso2 = dict(name="stage-delswallow", engine="mem",
                 args=["-vnode", vnode, "-engine", "mem", "-kind", "delswallow", "-seed", str(ctx.seed)])
     isos = [iso, iso2]
-    if not ctx.quick():
-        isos.append(dict(name="isolate-staleread", engine="mem",
-                         args=["-vnode", vnode, "-engine", "mem", "-kind", "staleread", "-seed", str(ctx.seed)]))
+    isos.append(dict(name="isolate-staleread", engine="mem",
+                     args=["-vnode", vnode, "-engine", "mem", "-kind", "staleread", "-seed", str(ctx.seed)]))
     for r in V.parallel(do, isos, n=3):
         if r[1] is not None and r[3] is not None:
             stats["isolate"][r[0]["name"]] = dict(reproduced=not r[3]["accepted"], observed=r[1].get("nemesis"))
@@ -294,10 +292,10 @@ def run(ctx):
         "operation is assumed not to take effect any more",
         "LPOP / RPOP / SETNX are only sent to the replica that reports itself leader (known finding "
         "c04-pop-precheck-local-read); the isolate stage checks the follower path",
-        "nemesis: process kill, graceful stop, leader transfer, and (thorough) a partition that cuts one replica's raft "
+        "nemesis: process kill, graceful stop, leader transfer, and a partition that cuts one replica's raft "
         "transport off for 1.8-4 s, one replica at a time; no asymmetric or partial partitions (C01-C03 cover message "
         "loss at the raft level)",
-        "reads (thorough): GET / HGET / LLEN only to the replica that reports itself leader and never to the cut-off "
+        "reads: GET / HGET / LLEN only to the replica that reports itself leader and never to the cut-off "
         "replica (known finding c04-leader-local-read-after-deposition)",
         "an epoch that cannot be closed by a barrier in time is dropped and counted, never judged",
     ])
